@@ -36,6 +36,20 @@ theorem Lexes.lexLoop {s : Str} {ts : List Tok} (h : Lexes s ts) :
 theorem Lexes.lexAll {s : Str} {ts : List Tok} (h : Lexes s ts) : lexAll s = .ok ts :=
   h.lexLoop _ _ (Nat.le_refl _)
 
+theorem Lexes.of_lexLoop {fuel pos : Nat} {s : Str} {ts : List Tok} (h : Cminx.lexLoop fuel pos s = .ok ts) :
+    Lexes s ts := by
+  induction fuel generalizing pos s ts with
+  | zero =>
+    rcases lexLoop_ok_cases h with ⟨rfl, rfl⟩ | ⟨f, k, n, ts', hf, _⟩
+    · exact .nil
+    · omega
+  | succ f ih =>
+    rcases lexLoop_ok_cases h with ⟨rfl, rfl⟩ | ⟨f', k, n, ts', hf, hs, hsc, hl, rfl⟩
+    · exact .nil
+    · have : f' = f := by omega
+      subst this
+      exact .cons hsc (ih hl)
+
 /-- `s` lexes without error and its significant tokens are `sig` -/
 def LexSig (s : Str) (sig : List Tok) : Prop := ∃ ts, Lexes s ts ∧ significant ts = sig
 
@@ -138,9 +152,36 @@ theorem Skips.lineComment_eof (t : Str) (ht : t.all notEol = true) (hob : opensB
     (by rw [List.append_nil]; exact scan_lineComment_eof t ht hob) rfl h
   simpa using this
 
+/-- a line ending that follows may be consumed by whatever precedes it -/
+theorem LexSig.eol_tail {e : Char} {r : Str} {sig : List Tok} (he : isEolCh e = true) (h : LexSig (e :: r) sig) :
+    LexSig r sig := by
+  have h1 := LexSig.dropWhile_run isEolCh .newline rfl scan_eol h
+  have hsp : spanLen isEolCh (e :: r) = spanLen isEolCh r + 1 := by simp [spanLen_cons, he]
+  rw [hsp, List.drop_succ_cons] at h1
+  have hr : r = r.take (spanLen isEolCh r) ++ r.drop (spanLen isEolCh r) := (List.take_append_drop _ _).symm
+  rw [hr]
+  refine Skips.eols _ _ ?_ sig h1
+  rw [take_spanLen]; exact List.all_takeWhile
+
+/-- `#text` without a line ending of its own, in front of a line ending: the comment takes that line ending -/
+theorem Skips.lineComment_noeol (t rest : Str) (ht : t.all notEol = true) (hob : opensBracket t = false)
+    (hr : startsWithEol rest = true) : Skips ('#' :: t) rest := by
+  intro sig h
+  unfold startsWithEol at hr
+  split at hr
+  · rename_i r
+    have := Skips.lineComment t false r ht hob sig (LexSig.eol_tail (by decide) h)
+    simpa [eolStr] using this
+  · rename_i r
+    have := Skips.lineComment t true r ht hob sig (LexSig.eol_tail (e := '\n') (by decide)
+      (LexSig.eol_tail (e := '\r') (by decide) h))
+    simpa [eolStr] using this
+  · cases hr
+
 theorem Skips.bracketComment (lvl : Nat) (t rest : Str)
     (hf : findAfter (bracketClose lvl) (t ++ bracketClose lvl) = some (t.length + (bracketClose lvl).length))
-    (hk3 : lvl = 0 → t.head? ≠ some '[') : Skips ('#' :: (bracketOpen lvl ++ t ++ bracketClose lvl)) rest :=
+    (hk3 : (lvl = 0 → t.head? ≠ some '[') ∨ findAfter docEnd (t ++ (bracketClose lvl ++ rest)) = none) :
+    Skips ('#' :: (bracketOpen lvl ++ t ++ bracketClose lvl)) rest :=
   fun _ h => LexSig.skip_append (scan_bracketComment lvl t rest hf hk3) rfl h
 
 end Cminx
